@@ -1664,7 +1664,7 @@ class SiftConfig(collections.abc.MutableMapping):
 
     def to_yaml_text(self):
         """Return a copy of the internal store in yaml-text format."""
-        return yaml.dump(self._get_yamlsafe_dict(), sort_keys=False)
+        return yaml.dump_all(self._get_yamlsafe_dict(), sort_keys=False)
 
     def to_yaml_file(self, fname):
         """Save a copy of the internal store in a specified yaml file."""
@@ -1692,7 +1692,13 @@ class SiftConfig(collections.abc.MutableMapping):
     def from_yaml_stream(cls, stream):
         """Create and return a new SiftConfig object with options loaded from a yaml stream."""
         ret = cls()
-        ret.store = yaml.load(stream, Loader=yaml.FullLoader)
+        cfg = [d for d in yaml.load_all(stream, Loader=yaml.FullLoader)]
+        if len(cfg) == 1:
+            ret.store = cfg[0]
+            ret.sift_type = 'Unknown'
+        else:
+            ret.sift_type = cfg[0]['sift_type']
+            ret.store = cfg[1]
         return ret
 
     def get_func(self):
